@@ -260,8 +260,38 @@ def fuzz_targets():
     return {"text": (text_strategy, check_text), "xml": (xml_cases(), body_xml)}
 
 
+def large_docs():
+    """documents of several hundred kilobytes, NBSP-dense, with 0-2 bytes of padding so that every byte alignment of
+    the two-byte UTF-8 NBSP against any block boundary occurs"""
+    out = []
+    for pad in (0, 1, 2):
+        for units in (30000, 60000):
+            body = ("w\xa0" * units)
+            e = {"l": "abstract", "lex": 1, "p": None,
+                 "k": [{"l": "para", "lex": 1, "p": None, "k": [["t", "x" * pad + body, "esc"]]},
+                       {"l": "title", "lex": 1, "p": None, "a": {"y": "v\xa0" * 50}, "k": [["t", body + " end", "esc"]]},
+                       {"l": "b", "lex": 1, "p": None, "k": [["t", "é" * pad + body, "cdata"]]}]}
+            out.append(({"pad": pad, "units": units}, e))
+    return out
+
+
+def large_task(ctx, item):
+    label, e = item
+    ctx.note(key=label, nontrivial=True, cls="large-document")
+    try:
+        check_xml(e, False)
+    except Violation as v:
+        ctx.fail(v.bucket, {"large": label}, v.message[:300] + f" (document of ~{label['units'] * 9 // 1000} kB, padding {label['pad']})")
+    try:
+        check_text("a" * label["pad"] + "w\xa0 " * label["units"])
+    except Violation as v:
+        ctx.fail(v.bucket, {"large": label}, v.message[:200])
+
+
 def run(ctx):
     ctx.pmap(hyp_shard, range(16))
+    ctx.pmap(large_task, large_docs())
+    ctx.engine("large-documents", documents=len(large_docs()))
     if not ctx.quick:
         from vf import fuzz
         fuzz.campaign(ctx, ID, "text", procs=4, runs=100000)
@@ -270,6 +300,12 @@ def run(ctx):
 
 def replay(case):
     try:
+        if "large" in case:
+            for label, e in large_docs():
+                if label == case["large"]:
+                    check_xml(e, False)
+                    check_text("a" * label["pad"] + "w\xa0 " * label["units"])
+            return None
         if "text" in case:
             check_text(case["text"])
         else:
